@@ -1,6 +1,7 @@
 import AcryoVerif.Py
 import AcryoVerif.Model.Crop
 import AcryoVerif.Model.Search
+import AcryoVerif.Model.Wedge
 
 /-! Dispatch of hand-written model operations for the line-protocol driver. -/
 namespace Model
@@ -36,12 +37,39 @@ def flat (r : PyM (List Int × List Rat)) : String :=
   | .ok (l, t) => " ".intercalate (l.map Canon.canon ++ t.map Canon.canon)
   | .error e => "err:" ++ toString e
 
+/-- `wedge_* N0 N1 N2 R(9, row major) n0(3) n1(3)` → one character per bin in C order; bins whose
+exact sign product is within `1e-6` of zero are printed as `x` (floating point decides them). -/
+def opWedge (f : M3 → Int × Int × Int → V3 → V3 → Int × Int × Int → Bool)
+    (sb sd : Bool) (off : Int → Int) (sh : Bool) (a : Array Rat) : String :=
+  let N : Int × Int × Int := (i a 0, i a 1, i a 2)
+  let R : M3 := ⟨⟨a[3]!, a[4]!, a[5]!⟩, ⟨a[6]!, a[7]!, a[8]!⟩, ⟨a[9]!, a[10]!, a[11]!⟩⟩
+  let n0 : V3 := ⟨a[12]!, a[13]!, a[14]!⟩
+  let n1 : V3 := ⟨a[15]!, a[16]!, a[17]!⟩
+  Id.run do
+    let mut s := ""
+    for z in [0:N.1.toNat] do
+      for y in [0:N.2.1.toNat] do
+        for x in [0:N.2.2.toNat] do
+          let idx : Int × Int × Int := ((z : Int), (y : Int), (x : Int))
+          let v := idxVec off sh N idx
+          let p := (effNormal sb sd R (shapeVec N) n0).dot v * (effNormal sb sd R (shapeVec N) n1).dot v
+          let scale : Rat := if sd then 1 else ((N.1 * N.1 + N.2.1 * N.2.1 + N.2.2 * N.2.2 : Int) : Rat) ^ 2
+          if Py.rabs p < scale / 1000000 then s := s ++ "x"
+          else s := s ++ (if f R N n0 n1 idx then "1" else "0")
+    return s
+
 def dispatch (name : String) (a : Array Rat) : Option String :=
   match name with
   | "prepAffine" => some (flat (opPrepAffine a))
   | "prepAffineCS" => some (flat (opPrepAffineCS a))
   | "searchLoader" => some (Canon.canon (searchLoader (i a 0) (i a 1) (a.toList.drop 2)))
   | "searchGroup" => some (Canon.canon (searchGroup (i a 0) (i a 1) (a.toList.drop 2)))
+  | "wedge_tilt" => some (opWedge maskTilt Gen.wedgeScaleBeforeRotTilt Gen.wedgeScaleIsDivTilt
+      Gen.indicesOffsetTilt Gen.indicesUsesFftshiftTilt a)
+  | "wedge_backend" => some (opWedge maskBackend Gen.wedgeScaleBeforeRotBackend Gen.wedgeScaleIsDivBackend
+      Gen.indicesOffsetBackend Gen.indicesUsesFftshiftBackend a)
+  | "wedge_utils" => some (opWedge maskUtils Gen.wedgeScaleBeforeRotUtils Gen.wedgeScaleIsDivUtils
+      Gen.indicesOffsetUtils Gen.indicesUsesFftshiftUtils a)
   | _ => none
 
 end Model
